@@ -835,6 +835,31 @@ def t4(prog, tier="quick"):
         def __init__(self):
             self.queue = []
             self.addr = id(self)
+    counter = [0]
+
+    class St:
+        """a stack object: `v` is its content (a node of the graph), `addr` its address.  Addresses are handed out in an order
+        unrelated to the contents (descending within a scenario), so code that orders or compares the POINTERS instead of the
+        stacks they point to behaves differently from code that compares contents."""
+        def __init__(self, v):
+            self.v = v
+            counter[0] += 1
+            self.addr = 10 ** 9 - counter[0] * 16 - (v * 7919) % 13
+
+        def copy_value(self):
+            return self           # a shared_ptr / moved unique_ptr keeps pointing at the same stack
+
+        def __eq__(self, o):
+            return isinstance(o, St) and self.v == o.v
+
+        def __lt__(self, o):
+            return self.v < o.v
+
+        def __hash__(self):
+            return hash(self.v)
+
+        def __repr__(self):
+            return str(self.v)
 
     def op_next(ev, o, a):
         if isinstance(o, Src):
@@ -844,17 +869,19 @@ def t4(prog, tier="quick"):
 
     def set_next(ev, o, a):
         stk = a[1]
-        o.inner.queue = list(rel.get(stk, ()))
+        o.inner.queue = [St(x) for x in rel.get(stk.v, ())]
         return None
     states = {}
     hooks = {
         "op::next": op_next,
         "op_origin::set_next": set_next,
         "scon::get<*": lambda ev, o, a: states["st"],
-        "std::make_unique<stack*": lambda ev, o, a: a[0],
-        "ctor:stack": lambda ev, o, a: a[0],
-        "stack::operator==": lambda ev, o, a: o == a[0],
-        "stack::operator<": lambda ev, o, a: o < a[0],
+        "std::make_unique<stack*": lambda ev, o, a: St(a[0].v),
+        "std::make_shared<stack*": lambda ev, o, a: St(a[0].v),
+        "ctor:stack": lambda ev, o, a: St(a[0].v),
+        "stack::operator==": lambda ev, o, a: o.v == a[0].v,
+        "stack::operator<": lambda ev, o, a: o.v < a[0].v,
+        "method:get": lambda ev, o, a: o,
     }
     ev = CxxEvaluator(hooks, {}, prog=prog)
     nodes = (1, 2, 3)          # non-zero: a stack pointer is tested for null
@@ -881,46 +908,64 @@ def t4(prog, tier="quick"):
             seen.append(x)
             todo += list(rel.get(x, ()))
         return seen
+    def scenario(plus, ins):
+        nonlocal n_eval
+        up, inner = Src(), Src()
+        counter[0] = 0
+        up.queue = [St(x) for x in ins]
+        origin = Obj("op_origin")
+        origin.inner = inner
+        op = Obj("op_tr_closure")
+        op.m_upstream, op.m_origin, op.m_op, op.m_is_plus, op.m_ll = up, origin, inner, plus, 0
+        states["st"] = ev.new_object("op_tr_closure::state")
+        ev.steps = 0
+        got = []
+        limit = sum(len(reach(s_, plus)) for s_ in ins) + 3
+        for _ in range(limit):
+            v = ev.call(nxt, op, [Obj("scon")])
+            n_eval += 1
+            if v is None:
+                break
+            got.append(v.v)
+        again = ev.call(nxt, op, [Obj("scon")]) if len(got) < limit else "more"
+        want_blocks = [reach(s_, plus) for s_ in ins]
+        ok = len(got) == sum(len(b_) for b_ in want_blocks) and again is None
+        pos = 0
+        if ok:
+            for s_, blk in zip(ins, want_blocks):
+                seg = got[pos:pos + len(blk)]
+                pos += len(blk)
+                if sorted(seg) != sorted(blk) or (not plus and seg and seg[0] != s_):
+                    ok = False
+        if ok:
+            return None
+        shown = {k: list(v) for k, v in rel.items()} if len(rel) <= 4 else "a graph of %d stacks (%s ...)" % (len(rel), dict(list(rel.items())[:3]))
+        return "`E%s` with E = %s fed the stacks %s yields %s%s; expected per input %s (each reachable stack exactly once%s)" % (
+            "+" if plus else "*", shown, list(ins), got if len(got) <= 12 else "%d stacks %s..." % (len(got), got[:12]),
+            " and more" if again == "more" else (" and then %r after reporting exhaustion" % again if again is not None else ""),
+            want_blocks if sum(len(b_) for b_ in want_blocks) <= 12 else "%d stacks" % sum(len(b_) for b_ in want_blocks), "" if plus else ", the input itself first")
     try:
         for e0, e1, e2 in itertools.product(succs, repeat=3):
             rel.clear()
             rel.update({1: e0, 2: e1, 3: e2})
             for plus in (False, True):
                 for ins in inputs:
-                    up, inner = Src(), Src()
-                    up.queue = list(ins)
-                    origin = Obj("op_origin")
-                    origin.inner = inner
-                    op = Obj("op_tr_closure")
-                    op.m_upstream, op.m_origin, op.m_op, op.m_is_plus, op.m_ll = up, origin, inner, plus, 0
-                    states["st"] = ev.new_object("op_tr_closure::state")
-                    ev.steps = 0
-                    got = []
-                    limit = sum(len(reach(s, plus)) for s in ins) + 3
-                    for _ in range(limit):
-                        v = ev.call(nxt, op, [Obj("scon")])
-                        n_eval += 1
-                        if v is None:
-                            break
-                        got.append(v)
-                    again = ev.call(nxt, op, [Obj("scon")]) if len(got) < limit else "more"
-                    want_blocks = [reach(s, plus) for s in ins]
-                    ok = len(got) == sum(len(b) for b in want_blocks) and again is None
-                    pos = 0
-                    if ok:
-                        for s, blk in zip(ins, want_blocks):
-                            seg = got[pos:pos + len(blk)]
-                            pos += len(blk)
-                            if sorted(seg) != sorted(blk) or (not plus and seg and seg[0] != s):
-                                ok = False
-                    if not ok and bad is None:
-                        bad = "`E%s` with E = %s fed the stacks %s yields %s%s; expected per input %s (each reachable stack exactly once%s)" % (
-                            "+" if plus else "*", {k: list(v) for k, v in rel.items()}, list(ins), got, " and more" if again == "more" else (" and then %r after reporting exhaustion" % again if again is not None else ""),
-                            want_blocks, "" if plus else ", the input itself first")
+                    bad = bad or scenario(plus, ins)
                 if bad:
                     break
             if bad:
                 break
+        # larger graphs: more reachable stacks than any small-buffer or batch threshold of an implementation is likely to have, with
+        # stacks reached again by a cycle and by diamonds (a stack already yielded must be recognised however the seen-set is kept)
+        big = [{i: ((i % 24) + 1,) for i in range(1, 25)},
+               {i: tuple(x for x in (i + 1, i + 2) if x <= 30) for i in range(1, 31)},
+               {i: (((i * 7) % 40) + 1, ((i * 11) % 40) + 1) for i in range(1, 41)}]
+        for g_ in big:
+            rel.clear()
+            rel.update(g_)
+            for plus in (False, True):
+                for ins in ((1,), (5, 2)):
+                    bad = bad or scenario(plus, ins)
     except OutOfBounds as x:
         bad = bad or "op_tr_closure: %s" % x
     except Thrown as x:
